@@ -173,6 +173,19 @@ theorem C12_die_missing_delim_list (o : Opts) (cs : List Chunk) (preB : List Blo
     (by simp only [List.length_cons]; omega) (by simp only [List.length_cons]; omega) hrest.follow
     (fun _ _ _ => ⟨_, _, _, rfl, rfl⟩) (fun hv => die_missing_delim_list o hv true n btx vs [] _ hname hfresh hw)
 
+/-- **C12_die_missing_delim_table** — an item whose table value is not closed: aborted while the value is parsed, the item is not stored -/
+theorem C12_die_missing_delim_table (o : Opts) (cs : List Chunk) (preB : List Block) (bc : Str) (pre : List Item) (n btx : Str)
+    (es : List (Str × Presentation × Val)) (rest : List TokSpec)
+    (H : DieHost o cs preB bc (itemsToks pre ++ ((.name, n) :: (.otable, btx) :: entriesToks es)) rest)
+    (hpre : wfItems o pre [] = true) (hname : wfName n = true)
+    (hfresh : o.norm n ∉ normNames o (denoteItems o.dia o.normKey pre [])) (hw : wfEntries o es = true) (hrest : restOk rest) :
+    DieOutcome o cs CIF_MISSING_DELIM (denote o.dia o.normKey (preB ++ [plainBlock bc pre]))
+      ((blocksToks preB).length + 1 + ((itemsToks pre).length + (1 + (1 + (entriesToks es).length)))) := by
+  have z := Lemmas.WriterChunks.szEntries_toks es
+  exact C12_die_items pre H CIF_MISSING_DELIM (1 + (1 + (entriesToks es).length)) (szEntries es + 2 + 1) termFollow hpre (by decide)
+    (by simp only [List.length_cons]; omega) (by simp only [List.length_cons]; omega) hrest.follow
+    (fun _ _ _ => ⟨_, _, _, rfl, rfl⟩) (fun hv => die_missing_delim_table o hv true n btx es [] _ hname hfresh hw)
+
 /-! ### among the items of a save frame of a data block -/
 
 /-- a defect behind the items `pre` of the save frame `fc`, which stands behind the well-formed elements `preE` of the data block
